@@ -323,9 +323,42 @@ theorem C07_sentinel_refused :
 def testnetPolicy : Policy := { Gen.Policy.defaultTestnet with onchain := false }
 def mainnetPolicy : Policy := { Gen.Policy.defaultMainnet with onchain := false }
 
-/-- the default filter generated from the source keeps the mutual-close tags (all tags) errors -/
-example : NonPermissive testnetPolicy ∧ errs testnetPolicy .onchainFormatStandard = true := ⟨by intro t _; rfl, rfl⟩
-example : NonPermissive mainnetPolicy ∧ errs mainnetPolicy .onchainFormatStandard = true := ⟨by intro t _; rfl, rfl⟩
+/-! #### the filter hypothesis, discharged for the generated default policies (see Props/C05 for the idea) -/
+
+/-- the tags the model relies on are exactly the `policy_err!` tags of `validate_mutual_close_tx` /
+    `decode_and_validate_mutual_close_tx` in the source -/
+theorem C07_gen_tags_covered :
+    (∀ s ∈ Gen.Policy.mutualPathTags, s ∈ mutualTags.map Tag.name) ∧
+    (∀ t ∈ mutualTags, t.name ∈ Gen.Policy.mutualPathTags) ∧
+    Gen.Policy.mutualPhase1PathTags = [Tag.mutualOther.name, Tag.onchainFormatStandard.name] := by
+  decide +kernel
+
+/-- **the default filter of both networks is strict** on every tag of the mutual-close paths -/
+theorem C07_default_filter_strict :
+    ∀ s ∈ Gen.Policy.mutualPathTags ++ Gen.Policy.mutualPhase1PathTags,
+      filterEval Gen.Policy.defaultMainnet.filter s = .error ∧ filterEval Gen.Policy.defaultTestnet.filter s = .error := by
+  decide +kernel
+
+/-- hence the hypotheses of `C07_main` / `C07_main_phase1` hold for the generated default policies -/
+theorem C07_default_nonpermissive :
+    (NonPermissive testnetPolicy ∧ errs testnetPolicy .onchainFormatStandard = true) ∧
+    (NonPermissive mainnetPolicy ∧ errs mainnetPolicy .onchainFormatStandard = true) := by
+  have key : ∀ t : Tag, t.name ∈ Gen.Policy.mutualPathTags ++ Gen.Policy.mutualPhase1PathTags →
+      errs testnetPolicy t = true ∧ errs mainnetPolicy t = true := by
+    intro t ht
+    obtain ⟨h1, h2⟩ := C07_default_filter_strict t.name ht
+    constructor
+    · show (filterEval Gen.Policy.defaultTestnet.filter t.name == .error) = true
+      rw [h2]; rfl
+    · show (filterEval Gen.Policy.defaultMainnet.filter t.name == .error) = true
+      rw [h1]; rfl
+  have hm : ∀ t ∈ mutualTags, t.name ∈ Gen.Policy.mutualPathTags ++ Gen.Policy.mutualPhase1PathTags := by
+    intro t ht
+    exact List.mem_append.mpr (Or.inl (C07_gen_tags_covered.2.1 t ht))
+  have hfmt : Tag.onchainFormatStandard.name ∈ Gen.Policy.mutualPathTags ++ Gen.Policy.mutualPhase1PathTags := by
+    decide +kernel
+  exact ⟨⟨fun t ht => (key t (hm t ht)).1, (key _ hfmt).1⟩, ⟨fun t ht => (key t (hm t ht)).2, (key _ hfmt).2⟩⟩
+
 
 def exSetup : Setup := ⟨true, 3000000, 0, 6, 7, .staticRemoteKey, none, false, false⟩
 def exState : EState :=
